@@ -184,7 +184,9 @@ public:
             return {pos, lo, hi};
         }
 
-        auto p = int64_t(root_slope * (k - first_key)) + root_intercept;
+        // Saturate before converting: the products below are unbounded for keys far beyond a segment (undefined conversion)
+        auto root_estimate = root_slope * (k - first_key);
+        auto p = int64_t(root_estimate < CompressedLevel::max_pos ? root_estimate : CompressedLevel::max_pos) + root_intercept;
         auto pos = std::min<size_t>(p > 0 ? size_t(p) : 0ull, root_range);
 
         for (const auto &level : levels) {
@@ -288,6 +290,9 @@ struct CompressedPGMIndex<K, Epsilon, EpsilonRecursive, Floating>::CompressedLev
     sdsl::sd_vector<> compressed_intercepts;   ///< The compressed bitvector storing the intercepts.
     sdsl::sd_vector<>::select_1_type sel1;     ///< The select1 succinct data structure on compressed_intercepts.
 
+    /// Largest position estimate converted to an integer (exactly representable, leaves room for adding an intercept).
+    static constexpr Floating max_pos = Floating(std::numeric_limits<int64_t>::max() / 2 + 1);
+
     CompressedLevel(const CompressedLevel &other)
         : keys(other.keys),
           slopes_map(other.slopes_map),
@@ -372,7 +377,8 @@ struct CompressedPGMIndex<K, Epsilon, EpsilonRecursive, Floating>::CompressedLev
     }
 
     inline size_t operator()(const std::vector<Floating> &slopes, size_t i, K k) const {
-        auto pos = int64_t(get_slope(slopes, i) * (k - keys[i])) + get_intercept(i);
+        auto p = get_slope(slopes, i) * (k - keys[i]);
+        auto pos = int64_t(p < max_pos ? p : max_pos) + get_intercept(i);
         return pos > 0 ? size_t(pos) : 0ull;
     }
 
